@@ -10,7 +10,7 @@ pub fn def() -> CheckDef {
     CheckDef {
         id: "C11",
         functions: &["lax::Hypergraph::{new_node,new_edge,new_operation,add_edge_source,add_edge_target,unify,delete_nodes,delete_nodes_witness,delete_edges,delete_edge,with_nodes,map_nodes,with_edges,map_edges}", "lax::OpenHypergraph::{new_node,new_edge,new_operation,add_edge_source,add_edge_target,unify,delete_nodes,delete_edges,with_nodes,map_nodes,with_edges,map_edges}", "serde::{Serialize,Deserialize} derives of lax::{OpenHypergraph,Hypergraph,Hyperedge,NodeId,EdgeId} through serde_json"],
-        bounds_quick: "one builder call from an arbitrary state (every state is reachable through the public fields, so one step covers histories): states with <=3 nodes, <=2 hyperedges (arities <=2), <=2 pending pairs, interfaces <=1..2; identifier arguments enumerated including duplicates and one out-of-range value; labels symbolic",
+        bounds_quick: "one builder call from an arbitrary state (every state is reachable through the public fields, so one step covers histories): states with <=3 nodes, <=3 hyperedges (arities <=2), <=2 pending pairs, interfaces <=1..2; identifier arguments (deletion lists of length <=3) enumerated including duplicates and one out-of-range value; labels symbolic",
         bounds_thorough: "states with <=4 nodes, <=3 hyperedges; deletion lists of length <=3",
         jobs,
         budget_s: (90, 1500),
@@ -24,7 +24,7 @@ fn state_shapes(tier: Tier) -> Vec<LaxShape> {
     let mut v = vec![];
     let nmax = if tier == Tier::Quick { 3 } else { 4 };
     for n in 0..=nmax {
-        for ar in [vec![], vec![(1usize, 1usize)], vec![(2, 1)], vec![(1, 0), (0, 1)], vec![(1, 1), (1, 1)]] {
+        for ar in [vec![], vec![(1usize, 1usize)], vec![(2, 1)], vec![(1, 0), (0, 1)], vec![(1, 1), (1, 1)], vec![(0, 0), (1, 0), (0, 1)]] {
             for q in 0..=2usize {
                 for (a, b) in [(0usize, 0usize), (1, 1), (2, 0)] {
                     let sh = LaxShape::new(n, &ar, q, a, b);
@@ -220,7 +220,8 @@ pub fn jobs(tier: Tier, _seed: u64) -> Vec<Job> {
     let per_job = Duration::from_secs(if tier == Tier::Quick { 60 } else { 600 });
     let cfg = base_cfg(tier);
     let mut out = vec![];
-    let dl = if tier == Tier::Quick { 2usize } else { 3usize };
+    // identifier lists of length 3: a repeated identifier with another one between its occurrences
+    let dl = 3usize;
     for sh in state_shapes(tier) {
         let lab = |name: &str| fresh(name, lw(), None);
         let must = tier == Tier::Quick;
